@@ -11,5 +11,7 @@ func TestVerifReplay(t *testing.T) {
 		"VerifC14Threshold":      VerifC14Threshold,
 		"VerifC14QuorumQuick":    VerifC14QuorumQuick,
 		"VerifC14QuorumThorough": VerifC14QuorumThorough,
+		"VerifC15Quick":          VerifC15Quick,
+		"VerifC15Thorough":       VerifC15Thorough,
 	})
 }
